@@ -121,6 +121,9 @@ def app_message(seed, side, k, law="small", charset="ascii"):
     The ClOrdID (tag 11) is the unique id used by the delivery oracles."""
     r = random.Random(seed * 1000003 + (1 if side == "A" else 2) * 7919 + k)
     mtype = r.choice(APP_TYPES)
+    if charset not in ("ascii", "surrogate") and r.random() < 0.15:
+        # custom message type with a non-ASCII character (BodyLength counts the 35= field as well)
+        mtype = r.choice(["U\u00c4", "U\u20ac", "\u00d1"])
     m = FIXMessage(mtype)
     m[FTag.ClOrdID] = f"{side}-{k}"
     m[FTag.Symbol] = r.choice(["ES", "NQ", "CL", "6E", "ZB"])
@@ -149,7 +152,7 @@ def app_message(seed, side, k, law="small", charset="ascii"):
     else:  # big: some frames exceed the 4096-byte read size
         n = r.choice([0, 5, 40, 300, 2000, 5000, 9000])
     if n:
-        m[FTag.Text] = rand_text(r, n, alph)
+        m[FTag.Text] = rand_text(r, n, _ALPH_ASCII if (not str(mtype).isascii() and r.random() < 0.6) else alph)
     if r.random() < 0.4:
         m.set_group(
             FTag.NoPartyIDs,
